@@ -1,11 +1,14 @@
-import Minimq.Proofs.WireSess
+import Minimq.Proofs.WireLog
 import Minimq.Proofs.WireLift
 /-
-C01, whole machine: the bytes accepted by the current transport are whole framed packets followed by
+C01 / C14, whole machine: the bytes accepted by the current transport are the CONNECT, then whole framed
+packets each within the Maximum Packet Size of the current connection (`WireIs`), followed by
 the written part of at most one more packet, and that part is accounted for by the one queue entry in
 progress or by the operation-local write that is suspended. The invariant is stated on a `View` of the
 world (session, connection handle, wire of the current transport), each of the thirteen machine
-functions gets its own precondition, and the induction is on fuel as in `Proofs/Lift.lean`. Each
+functions gets its own precondition, and the induction is on fuel as in `Proofs/Lift.lean`. The
+invariant also carries the ghost transmission log of the current transport (`Lv.log`: it agrees with the
+retained queue, `Proofs/WireLog.lean`; its packets are among the whole packets on the wire, `WireIs`). Each
 function also gets a potential (`φ…`) bounding the fuel it needs; every call decreases it, so the
 out-of-fuel branch is never reached from `pollFuel` and the theorems need no assumption about fuel.
 -/
@@ -14,44 +17,82 @@ open Gen World Outbound
 
 /-! ### Wires -/
 
-/-- `wire` is a sequence of whole framed packets followed by `part`. -/
-def WireIs (wire part : Bytes) : Prop :=
-  ∃ frames : List Bytes, (∀ f ∈ frames, Framed f) ∧ wire = frames.flatten ++ part
+/-- `n` bytes are within the Maximum Packet Size `lim` (anything is when no limit was announced). -/
+def Fits (lim : Option Nat) (n : Nat) : Prop := ∀ m, lim = some m → n ≤ m
+
+theorem Fits.mono {lim : Option Nat} {a c : Nat} (h : Fits lim c) (hle : a ≤ c) : Fits lim a :=
+  fun m hm => Nat.le_trans hle (h m hm)
+
+theorem fits_of_not_tooLarge {r : Runtime} {n : Nat} (h : r.packetTooLarge n = false) : Fits r.maximumPacketSize n :=
+  (packetTooLarge_false_iff r n).1 h
+
+/-- The first byte says CONNECT. -/
+def IsConnect (bs : Bytes) : Prop := ∃ x rest, bs = x :: rest ∧ x.toNat / 16 = MT_Connect
+
+/-- `wire` is the CONNECT packet `c`, then whole framed packets each within the limit `lim`, then `part`;
+the packets recorded in the transmission log (`logb`, their bytes in order) are among the whole packets, in that order. -/
+def WireIs (lim : Option Nat) (wire : Bytes) (logb : List Bytes) (part : Bytes) : Prop :=
+  ∃ (c : Bytes) (frames : List Bytes), Framed c ∧ IsConnect c ∧ (∀ f ∈ frames, Framed f ∧ Fits lim f.length) ∧
+    logb.Sublist frames ∧ wire = c ++ frames.flatten ++ part
 
 /-- `wire` is a prefix of a sequence of whole framed packets: whole packets, then possibly the
 beginning of one more. -/
 def Pfx (wire : Bytes) : Prop :=
   ∃ frames : List Bytes, (∀ f ∈ frames, Framed f) ∧ ∃ rest, frames.flatten = wire ++ rest
 
-theorem WireIs.nil : WireIs [] [] := ⟨[], by simp, by simp⟩
+/-- The handshake has put the whole CONNECT on the wire and nothing else. -/
+theorem WireIs.first {wire : Bytes} (lim : Option Nat) (h : Framed wire) (hc : IsConnect wire) : WireIs lim wire [] [] :=
+  ⟨wire, [], h, hc, by simp, List.Sublist.refl _, by simp⟩
 
-theorem WireIs.pfx_nil {wire : Bytes} (h : WireIs wire []) : Pfx wire := by
-  obtain ⟨fs, hf, hw⟩ := h
-  exact ⟨fs, hf, [], by simp [hw]⟩
+theorem Pfx.of_framed {wire rest : Bytes} (h : Framed (wire ++ rest)) : Pfx wire :=
+  ⟨[wire ++ rest], by simpa using h, rest, by simp⟩
 
-theorem WireIs.pfx_framed {wire part rest : Bytes} (h : WireIs wire part) (hfr : Framed (part ++ rest)) : Pfx wire := by
-  obtain ⟨fs, hf, hw⟩ := h
-  refine ⟨fs ++ [part ++ rest], ?_, rest, ?_⟩
+theorem WireIs.pfx_nil {lim : Option Nat} {wire : Bytes} {logb : List Bytes} (h : WireIs lim wire logb []) : Pfx wire := by
+  obtain ⟨c, fs, hc, _, hf, _, hw⟩ := h
+  refine ⟨c :: fs, ?_, [], by simp [hw]⟩
+  intro f hm
+  rcases List.mem_cons.mp hm with rfl | hm
+  · exact hc
+  · exact (hf f hm).1
+
+theorem WireIs.pfx_framed {lim : Option Nat} {wire part rest : Bytes} {logb : List Bytes} (h : WireIs lim wire logb part)
+    (hfr : Framed (part ++ rest)) : Pfx wire := by
+  obtain ⟨c, fs, hc, _, hf, _, hw⟩ := h
+  refine ⟨c :: (fs ++ [part ++ rest]), ?_, rest, ?_⟩
   · intro f hm
-    rcases List.mem_append.mp hm with hm | hm
-    · exact hf f hm
-    · simp only [List.mem_singleton] at hm; subst hm; exact hfr
+    rcases List.mem_cons.mp hm with rfl | hm
+    · exact hc
+    · rcases List.mem_append.mp hm with hm | hm
+      · exact (hf f hm).1
+      · simp only [List.mem_singleton] at hm; subst hm; exact hfr
   · simp [hw]
 
-theorem WireIs.append {wire part : Bytes} (h : WireIs wire part) (bs : Bytes) : WireIs (wire ++ bs) (part ++ bs) := by
-  obtain ⟨fs, hf, hw⟩ := h
-  exact ⟨fs, hf, by simp [hw]⟩
+theorem WireIs.append {lim : Option Nat} {wire part : Bytes} {logb : List Bytes} (h : WireIs lim wire logb part) (bs : Bytes) :
+    WireIs lim (wire ++ bs) logb (part ++ bs) := by
+  obtain ⟨c, fs, hc, hcc, hf, hl, hw⟩ := h
+  exact ⟨c, fs, hc, hcc, hf, hl, by simp [hw]⟩
 
-/-- The last packet has been completed. -/
-theorem WireIs.close {wire part : Bytes} (h : WireIs wire part) (hfr : Framed part) : WireIs wire [] := by
-  obtain ⟨fs, hf, hw⟩ := h
-  refine ⟨fs ++ [part], ?_, by simp [hw]⟩
+/-- The last packet has been completed (a packet that is not recorded in the log). -/
+theorem WireIs.close {lim : Option Nat} {wire part : Bytes} {logb : List Bytes} (h : WireIs lim wire logb part) (hfr : Framed part)
+    (hfit : Fits lim part.length) : WireIs lim wire logb [] := by
+  obtain ⟨c, fs, hc, hcc, hf, hl, hw⟩ := h
+  refine ⟨c, fs ++ [part], hc, hcc, ?_, hl.trans (List.sublist_append_left _ _), by simp [hw]⟩
   intro f hm
   rcases List.mem_append.mp hm with hm | hm
   · exact hf f hm
-  · simp only [List.mem_singleton] at hm; subst hm; exact hfr
+  · simp only [List.mem_singleton] at hm; subst hm; exact ⟨hfr, hfit⟩
 
-theorem Pfx.nil : Pfx [] := WireIs.nil.pfx_nil
+/-- The last packet has been completed, and it is recorded in the log. -/
+theorem WireIs.closeLog {lim : Option Nat} {wire part : Bytes} {logb : List Bytes} (h : WireIs lim wire logb part)
+    (hfr : Framed part) (hfit : Fits lim part.length) : WireIs lim wire (logb ++ [part]) [] := by
+  obtain ⟨c, fs, hc, hcc, hf, hl, hw⟩ := h
+  refine ⟨c, fs ++ [part], hc, hcc, ?_, hl.append (List.Sublist.refl _), by simp [hw]⟩
+  intro f hm
+  rcases List.mem_append.mp hm with hm | hm
+  · exact hf f hm
+  · simp only [List.mem_singleton] at hm; subst hm; exact ⟨hfr, hfit⟩
+
+theorem Pfx.nil : Pfx [] := ⟨[], by simp, [], by simp⟩
 
 /-! ### The ambient session invariants -/
 
@@ -133,7 +174,7 @@ theorem retained_entry_bytes {o : Outbound} (ha : o.ArenaInv) (hf : o.FramedInv)
 theorem prepareStep_write (w : World) (step : Outbound.Step) (hs : w.sess.data.outbound.Slot step) (hsp : SP w.sess)
     {pkt : Flushed} {bytes : Bytes} {written len : Nat} (h : prepareStep w step = .write pkt bytes written len) :
     pkt = step.flushed ∧ step.state = .write written ∧ w.sess.data.outbound.StepBytes step bytes ∧
-      len = bytes.length ∧ Framed bytes ∧ 0 < bytes.length := by
+      len = bytes.length ∧ Framed bytes ∧ 0 < bytes.length ∧ w.sess.rt.packetTooLarge bytes.length = false := by
   cases hs with
   | control a st rest hc hrest hrel hret =>
     cases st with
@@ -146,10 +187,11 @@ theorem prepareStep_write (w : World) (step : Outbound.Step) (hs : w.sess.data.o
         simp only [] at h
         split at h
         · simp at h
-        · simp only [Prepared.write.injEq] at h
+        · rename_i hbig
+          simp only [Prepared.write.injEq] at h
           obtain ⟨rfl, rfl, rfl, rfl⟩ := h
           obtain ⟨h1, h2⟩ := encodeControl_framed henc
-          exact ⟨rfl, rfl, henc, rfl, h1, h2⟩
+          exact ⟨rfl, rfl, henc, rfl, h1, h2, by simpa using hbig⟩
     | flush => simp [prepareStep] at h
     | sent => simp [prepareStep] at h
   | release pre id rc st post hr hpre hpost hctl hret =>
@@ -163,10 +205,11 @@ theorem prepareStep_write (w : World) (step : Outbound.Step) (hs : w.sess.data.o
         simp only [] at h
         split at h
         · simp at h
-        · simp only [Prepared.write.injEq] at h
+        · rename_i hbig
+          simp only [Prepared.write.injEq] at h
           obtain ⟨rfl, rfl, rfl, rfl⟩ := h
           obtain ⟨h1, h2⟩ := encodePubrel_framed henc
-          exact ⟨rfl, rfl, henc, rfl, h1, h2⟩
+          exact ⟨rfl, rfl, henc, rfl, h1, h2, by simpa using hbig⟩
     | flush => simp [prepareStep] at h
     | sent => simp [prepareStep] at h
   | retained pre e post hr hpre hpost hctl hrel =>
@@ -177,9 +220,11 @@ theorem prepareStep_write (w : World) (step : Outbound.Step) (hs : w.sess.data.o
       simp only [prepareStep, hst] at h
       split at h
       · simp at h
-      · simp only [Prepared.write.injEq] at h
+      · rename_i hbig
+        simp only [Prepared.write.injEq] at h
         obtain ⟨rfl, rfl, rfl, rfl⟩ := h
-        exact ⟨rfl, rfl, ⟨rfl, h1⟩, h1.symm, h2, by rw [Outbound.retainedPacket, h1]; exact h3⟩
+        exact ⟨rfl, rfl, ⟨rfl, h1⟩, h1.symm, h2, by rw [Outbound.retainedPacket, h1]; exact h3,
+          by rw [Outbound.retainedPacket, h1]; simpa using hbig⟩
     | flush => simp [prepareStep, hst] at h
     | sent => simp [prepareStep, hst] at h
 
@@ -221,9 +266,16 @@ structure View where
   conn : Option Conn
   net : Bool
   wire : Bytes
+  /-- Ordinal of the current transport. -/
+  ord : Nat
+  /-- The part of the transmission log that belongs to the current transport. -/
+  log : List LogEntry
+
+/-- The log entries of the current transport. -/
+def World.curLog (w : World) : List LogEntry := w.log.filter (fun f => f.net == w.nets.length)
 
 def World.view (w : World) : View :=
-  { sess := w.sess, conn := w.conn, net := !w.nets.isEmpty, wire := w.curNet.wire }
+  { sess := w.sess, conn := w.conn, net := !w.nets.isEmpty, wire := w.curNet.wire, ord := w.nets.length, log := w.curLog }
 
 namespace View
 def live (v : View) : Bool :=
@@ -232,7 +284,18 @@ def live (v : View) : Bool :=
   | none => false
 def o (v : View) : Outbound := v.sess.data.outbound
 def avail (v : View) : Bool := v.sess.reader.packetAvailable
+/-- The Maximum Packet Size the CONNACK of the current connection announced, if any. -/
+def lim (v : View) : Option Nat := v.sess.rt.maximumPacketSize
+/-- What `perform_outbound_step` checked before offering the first byte of a packet. -/
+def ok (v : View) : Bytes → Prop := fun bs => Fits v.lim bs.length
 end View
+
+theorem View.lim_sess (v : View) {s : Session} (hm : s.rt.maximumPacketSize = v.sess.rt.maximumPacketSize) :
+    ({ v with sess := s } : View).lim = v.lim := hm
+
+theorem View.ok_sess (v : View) {s : Session} (hm : s.rt.maximumPacketSize = v.sess.rt.maximumPacketSize) :
+    ({ v with sess := s } : View).ok = v.ok := by
+  unfold View.ok; rw [View.lim_sess v hm]
 
 theorem view_live (w : World) : w.view.live = w.live := rfl
 
@@ -281,17 +344,31 @@ theorem nets_ne_of_view {w : World} (h : w.view.net = true) : w.nets ≠ [] := b
   intro h0
   simp [World.view, h0] at h
 
+theorem ioWrite_log (w : World) (bs : Bytes) : (w.ioWrite bs).1.log = w.log := by
+  unfold World.ioWrite
+  cases w.slot with
+  | none => rfl
+  | some k => simp only []; repeat' split
+              all_goals rfl
+
+theorem ioRead_log (w : World) (n : Nat) : (w.ioRead n).1.log = w.log := by
+  unfold World.ioRead
+  cases w.slot with
+  | none => rfl
+  | some k => simp only []; repeat' split
+              all_goals rfl
+
 theorem ioFlush_view {w w' : World} {r : FlushRes} (heq : w.ioFlush = (w', r)) : w'.view = w.view := by
   have h1 := io_flush_sess' heq
   obtain ⟨_, h2⟩ := ioFlush_net w w' r heq
-  have h3 : w'.conn = w.conn := by
-    have : (w.ioFlush).1.conn = w.conn := by
+  have h3 : w'.conn = w.conn ∧ w'.log = w.log := by
+    have : (w.ioFlush).1.conn = w.conn ∧ (w.ioFlush).1.log = w.log := by
       unfold World.ioFlush
       cases w.slot with
-      | none => rfl
-      | some k => simp only []; split <;> rfl
+      | none => exact ⟨rfl, rfl⟩
+      | some k => simp only []; split <;> exact ⟨rfl, rfl⟩
     rw [heq] at this; exact this
-  simp only [World.view, World.curNet, h1, h2, h3]
+  simp only [World.view, World.curNet, World.curLog, h1, h2, h3.1, h3.2]
 
 theorem ioRead_view {w w' : World} {n : Nat} {r : ReadRes} (hn : w.view.net = true) (heq : w.ioRead n = (w', r)) :
     w'.view = w.view := by
@@ -299,7 +376,9 @@ theorem ioRead_view {w w' : World} {n : Nat} {r : ReadRes} (hn : w.view.net = tr
   obtain ⟨_, h2, _, h4⟩ := ioRead_net w w' n r (nets_ne_of_view hn) heq
   have h3 : w'.conn = w.conn := by
     have := ioRead_conn w n; rw [heq] at this; exact this
-  simp only [World.view, h1, h3, h4, isEmpty_of_length h2]
+  have h5 : w'.log = w.log := by
+    have := ioRead_log w n; rw [heq] at this; exact this
+  simp only [World.view, World.curLog, h1, h2, h3, h4, h5, isEmpty_of_length h2]
 
 theorem ioWrite_view {w w' : World} {bs : Bytes} {r : WriteRes} (hn : w.view.net = true) (heq : w.ioWrite bs = (w', r)) :
     match r with
@@ -309,35 +388,59 @@ theorem ioWrite_view {w w' : World} {bs : Bytes} {r : WriteRes} (hn : w.view.net
   obtain ⟨_, h2, _, h4⟩ := ioWrite_net w w' bs r (nets_ne_of_view hn) heq
   have h3 : w'.conn = w.conn := by
     have := ioWrite_conn w bs; rw [heq] at this; exact this
+  have h5 : w'.log = w.log := by
+    have := ioWrite_log w bs; rw [heq] at this; exact this
   cases r with
   | ok k =>
     simp only [] at h4 ⊢
     refine ⟨h4.1, ?_⟩
-    simp only [World.view, h1, h3, h4.2, isEmpty_of_length h2]
-  | pending => simp only [] at h4 ⊢; simp only [World.view, h1, h3, h4, isEmpty_of_length h2]
-  | zero => simp only [] at h4 ⊢; simp only [World.view, h1, h3, h4, isEmpty_of_length h2]
-  | err k => simp only [] at h4 ⊢; simp only [World.view, h1, h3, h4, isEmpty_of_length h2]
+    simp only [World.view, World.curLog, h1, h2, h3, h4.2, h5, isEmpty_of_length h2]
+  | pending => simp only [] at h4 ⊢; simp only [World.view, World.curLog, h1, h2, h3, h4, h5, isEmpty_of_length h2]
+  | zero => simp only [] at h4 ⊢; simp only [World.view, World.curLog, h1, h2, h3, h4, h5, isEmpty_of_length h2]
+  | err k => simp only [] at h4 ⊢; simp only [World.view, World.curLog, h1, h2, h3, h4, h5, isEmpty_of_length h2]
+
+/-- `set_written` at the world level: the session changes, and when the entry is completely written
+it is appended to the log of the current transport. -/
+theorem view_setWritten (w : World) (pkt : Flushed) (a c : Nat) :
+    (w.setWritten pkt a c).view =
+      { w.view with sess := w.view.sess.setWritten pkt a c,
+                    log := if a ≥ c then w.view.log ++ [w.view.sess.data.outbound.done w.view.ord pkt] else w.view.log } := by
+  unfold World.setWritten
+  by_cases h : a ≥ c
+  · simp only [h, if_true, World.view, World.curLog, World.curNet, List.filter_append, doneFrame_eq]
+    congr 1
+    have : (w.sess.data.outbound.done w.nets.length pkt).net = w.nets.length := by
+      unfold Outbound.done
+      cases pkt with
+      | control a => rfl
+      | release id => simp only []; split <;> rfl
+      | retained id => simp only []; split <;> rfl
+    simp [List.filter_cons, this]
+  · simp only [h, if_false, World.view, World.curLog, World.curNet]
 
 /-! ### Preconditions of the machine functions, on views -/
 
-/-- A live connection on an existing transport whose wire is whole packets followed by `part`. -/
+/-- A live connection on an existing transport whose wire is the CONNECT, whole packets within the
+Maximum Packet Size of this connection, and then `part`; the log of this transport is on the wire and
+agrees with the retained queue. -/
 structure Lv (v : View) (part : Bytes) : Prop where
   net : v.net = true
   live : v.live = true
   sp : SP v.sess
-  wire : WireIs v.wire part
+  wire : WireIs v.lim v.wire (v.log.map (·.bytes)) part
+  log : v.o.Log v.ord v.log
 
 /-- Between steps of `flush_outbound` and whenever no operation is suspended on a live connection:
 the queues account for the incomplete packet on the wire, and no complete inbound packet is waiting. -/
-def FlushPre (v : View) : Prop := ∃ part, Lv v part ∧ v.o.OState part ∧ v.avail = false
+def FlushPre (v : View) : Prop := ∃ part, Lv v part ∧ v.o.OState v.ok part ∧ v.avail = false
 
 /-- In `drive_packet`: a complete inbound packet may be waiting, but then nothing is in progress. -/
-def DrivePre (v : View) : Prop := ∃ part, Lv v part ∧ v.o.OState part ∧ (v.avail = true → v.o.Quiet)
+def DrivePre (v : View) : Prop := ∃ part, Lv v part ∧ v.o.OState v.ok part ∧ (v.avail = true → v.o.Quiet)
 
 /-- At the `write` await of `perform_outbound_step`. -/
 def WritePre (v : View) (step : Outbound.Step) (bytes : Bytes) (written : Nat) : Prop :=
   Lv v (bytes.take written) ∧ v.o.Slot step ∧ step.state = .write written ∧ v.o.StepBytes step bytes ∧
-    written < bytes.length ∧ Framed bytes ∧ v.avail = false
+    written < bytes.length ∧ Framed bytes ∧ v.avail = false ∧ v.ok bytes
 
 /-- At the `flush` await of `perform_outbound_step`. -/
 def FlushingPre (v : View) (step : Outbound.Step) : Prop :=
@@ -345,16 +448,25 @@ def FlushingPre (v : View) (step : Outbound.Step) : Prop :=
 
 def QuietPre (v : View) : Prop := Lv v [] ∧ v.o.Quiet
 
-/-- The handshake runs without a connection handle; the other local writes on a live connection. -/
-def Mode (v : View) (which : Nat) : Prop :=
-  (which = 0 ∧ v.conn = none) ∨ (which ≠ 0 ∧ v.live = true ∧ v.avail = false)
+/-- The handshake: no connection handle, a fresh transport whose log is empty, every queue entry
+waiting for its first byte. -/
+structure Hand (v : View) : Prop where
+  conn : v.conn = none
+  log : v.log = []
+  fresh : v.o.AllFresh
 
-/-- An operation-local `write_all` (CONNECT, QoS 0 PUBLISH, DISCONNECT) with `bytes` still to go. -/
+/-- An operation-local `write_all` with `bytes` still to go. The handshake (`which = 0`) runs without a
+connection handle on a fresh transport: what is on the wire and `bytes` make up the CONNECT. A QoS 0
+PUBLISH or a DISCONNECT runs on a live connection: whole packets, then `pre`, and `pre ++ bytes` is a
+whole packet within the limit. -/
 def LocalPre (v : View) (which : Nat) (bytes : Bytes) : Prop :=
-  v.net = true ∧ SP v.sess ∧ v.o.Quiet ∧ Mode v which ∧ ∃ pre, WireIs v.wire pre ∧ Framed (pre ++ bytes)
+  v.net = true ∧ SP v.sess ∧ v.o.Quiet ∧
+  ((which = 0 ∧ Hand v ∧ Framed (v.wire ++ bytes) ∧ IsConnect (v.wire ++ bytes)) ∨
+   (which ≠ 0 ∧ v.avail = false ∧ ∃ pre, Lv v pre ∧ Framed (pre ++ bytes) ∧ Fits v.lim (pre ++ bytes).length))
 
 def LocalFlushPre (v : View) (which : Nat) : Prop :=
-  v.net = true ∧ SP v.sess ∧ v.o.Quiet ∧ Mode v which ∧ WireIs v.wire []
+  v.net = true ∧ SP v.sess ∧ v.o.Quiet ∧
+  ((which = 0 ∧ Hand v ∧ Framed v.wire ∧ IsConnect v.wire) ∨ (which ≠ 0 ∧ v.avail = false ∧ Lv v []))
 
 /-- The invariant at each await point. -/
 def PcOK (v : View) : Pc → Prop
@@ -369,11 +481,16 @@ def PcOK (v : View) : Pc → Prop
   | .discFlush => LocalFlushPre v 2
   | .waitRead _ _ _ => QuietPre v ∧ v.avail = false
 
+/-- What is kept about a connection that is not live (dead, dropped, or not yet established): its
+wire is whole packets and possibly the beginning of one more, and its log has each retained packet at
+most once, in serial order. -/
+def DeadOK (v : View) : Prop := Pfx v.wire ∧ (sers v.log).Pairwise (· < ·)
+
 /-- The invariant between directives. -/
 def PhaseV (v : View) (fut : Option Pc) : Prop :=
   match fut with
   | some pc => PcOK v pc
-  | none => if v.live = true then FlushPre v else Pfx v.wire
+  | none => if v.live = true then FlushPre v else DeadOK v
 
 /-- What every machine function establishes when it returns to the caller or suspends: the invariant. -/
 def Post (w : World) : Prop := PhaseV w.view w.fut
@@ -385,7 +502,7 @@ theorem PhaseV.live {v : View} (h : FlushPre v) : PhaseV v none := by
   simp only [PhaseV, hl.live, if_true]
   exact ⟨part, hl, by assumption⟩
 
-theorem PhaseV.dead {v : View} (hl : v.live = false) (hp : Pfx v.wire) : PhaseV v none := by
+theorem PhaseV.dead {v : View} (hl : v.live = false) (hp : DeadOK v) : PhaseV v none := by
   simp only [PhaseV, hl, Bool.false_eq_true, if_false]; exact hp
 
 theorem Post.live_finish {w : World} (l : String) (h : FlushPre w.view) : Post (w.finish l) := PhaseV.live h
@@ -395,30 +512,42 @@ theorem Post.live_deliver {w : World} (n : String) (len : Nat) (h : FlushPre w.v
   obtain ⟨h1, h2⟩ := view_deliver w n len
   unfold Post; rw [h1, h2]; exact PhaseV.live h
 
-theorem Post.dead_finish {w : World} (l : String) (hl : w.view.live = false) (hp : Pfx w.view.wire) : Post (w.finish l) :=
+theorem Post.dead_finish {w : World} (l : String) (hl : w.view.live = false) (hp : DeadOK w.view) : Post (w.finish l) :=
   PhaseV.dead hl hp
-theorem Post.dead_finishErr {w : World} (n : String) (e : Err) (hl : w.view.live = false) (hp : Pfx w.view.wire) :
+theorem Post.dead_finishErr {w : World} (n : String) (e : Err) (hl : w.view.live = false) (hp : DeadOK w.view) :
     Post (w.finishErr n e) := PhaseV.dead hl hp
 
-theorem Post.hd_finishErr {w : World} (n : String) (e : Err) (hp : Pfx w.view.wire) : Post ((w.handleDisconnect).finishErr n e) :=
+theorem Post.hd_finishErr {w : World} (n : String) (e : Err) (hp : DeadOK w.view) : Post ((w.handleDisconnect).finishErr n e) :=
   PhaseV.dead (hd_live w.view w.sess.handleDisconnect) hp
-theorem Post.hd_finish {w : World} (l : String) (hp : Pfx w.view.wire) : Post ((w.handleDisconnect).finish l) :=
+theorem Post.hd_finish {w : World} (l : String) (hp : DeadOK w.view) : Post ((w.handleDisconnect).finish l) :=
   PhaseV.dead (hd_live w.view w.sess.handleDisconnect) hp
 
 /-! ### Transitions between the preconditions (no world involved) -/
 
-theorem Lv.pfx {v : View} {part : Bytes} (h : Lv v part) (ho : v.o.OState part) : Pfx v.wire := by
+theorem Lv.pfx {v : View} {part : Bytes} (h : Lv v part) (ho : v.o.OState v.ok part) : DeadOK v := by
+  refine ⟨?_, h.log.sorted⟩
   rcases ho.part_prefix with rfl | ⟨rest, hr⟩
   · exact h.wire.pfx_nil
   · exact h.wire.pfx_framed hr
 
-theorem Lv.sess {v : View} {part : Bytes} (h : Lv v part) {s : Session} (hs : SP s) : Lv { v with sess := s } part :=
-  ⟨h.net, h.live, hs, h.wire⟩
+/-- The session changed, but neither the Maximum Packet Size nor the agreement of the log with the queue. -/
+structure SessOK (v : View) (s : Session) : Prop where
+  sp : SP s
+  mps : s.rt.maximumPacketSize = v.sess.rt.maximumPacketSize
+  log : s.data.outbound.Log v.ord v.log
 
-theorem FlushPre.pfx {v : View} (h : FlushPre v) : Pfx v.wire := by
+theorem Lv.sess {v : View} {part : Bytes} (h : Lv v part) {s : Session} (hs : SessOK v s) : Lv { v with sess := s } part :=
+  ⟨h.net, h.live, hs.sp, by rw [View.lim_sess v hs.mps]; exact h.wire, hs.log⟩
+
+/-- The outbound queues did not change at all. -/
+theorem SessOK.same {v : View} {s : Session} {part : Bytes} (h : Lv v part) (hs : SP s)
+    (hm : s.rt.maximumPacketSize = v.sess.rt.maximumPacketSize) (ho : s.data.outbound = v.sess.data.outbound) : SessOK v s :=
+  ⟨hs, hm, by rw [ho]; exact h.log⟩
+
+theorem FlushPre.pfx {v : View} (h : FlushPre v) : DeadOK v := by
   obtain ⟨part, hl, ho, _⟩ := h; exact hl.pfx ho
 
-theorem DrivePre.pfx {v : View} (h : DrivePre v) : Pfx v.wire := by
+theorem DrivePre.pfx {v : View} (h : DrivePre v) : DeadOK v := by
   obtain ⟨part, hl, ho, _⟩ := h; exact hl.pfx ho
 
 theorem FlushPre.drive {v : View} (h : FlushPre v) : DrivePre v := by
@@ -430,31 +559,36 @@ theorem DrivePre.flush {v : View} (h : DrivePre v) (ha : v.avail = false) : Flus
   exact ⟨part, hl, ho, ha⟩
 
 theorem WritePre.pfx {v : View} {step : Outbound.Step} {bytes : Bytes} {written : Nat} (h : WritePre v step bytes written) :
-    Pfx v.wire :=
-  h.1.wire.pfx_framed (rest := bytes.drop written) (by rw [List.take_append_drop]; exact h.2.2.2.2.2.1)
+    DeadOK v :=
+  ⟨h.1.wire.pfx_framed (rest := bytes.drop written) (by rw [List.take_append_drop]; exact h.2.2.2.2.2.1), h.1.log.sorted⟩
 
 theorem WritePre.flushPre {v : View} {step : Outbound.Step} {bytes : Bytes} {written : Nat} (h : WritePre v step bytes written) :
     FlushPre v := by
-  obtain ⟨hl, hs, hst, hb, hlt, hfr, ha⟩ := h
+  obtain ⟨hl, hs, hst, hb, hlt, hfr, ha, hok⟩ := h
   cases written with
   | zero => exact ⟨[], by simpa using hl, .quiet (hs.quiet_of_fresh hst), ha⟩
-  | succ n => exact ⟨_, hl, .writing step n bytes hs hst hb hlt hfr, ha⟩
+  | succ n => exact ⟨_, hl, .writing step n bytes hs hst hb hlt hfr hok, ha⟩
 
-theorem FlushingPre.pfx {v : View} {step : Outbound.Step} (h : FlushingPre v step) : Pfx v.wire := h.1.wire.pfx_nil
+theorem FlushingPre.pfx {v : View} {step : Outbound.Step} (h : FlushingPre v step) : DeadOK v := ⟨h.1.wire.pfx_nil, h.1.log.sorted⟩
 
 theorem FlushingPre.flushPre {v : View} {step : Outbound.Step} (h : FlushingPre v step) : FlushPre v :=
   ⟨[], h.1, .flushing step h.2.1 h.2.2.1, h.2.2.2⟩
 
-theorem QuietPre.pfx {v : View} (h : QuietPre v) : Pfx v.wire := h.1.wire.pfx_nil
+theorem QuietPre.pfx {v : View} (h : QuietPre v) : DeadOK v := ⟨h.1.wire.pfx_nil, h.1.log.sorted⟩
 theorem QuietPre.flushPre {v : View} (h : QuietPre v) (ha : v.avail = false) : FlushPre v := ⟨[], h.1, .quiet h.2, ha⟩
 theorem QuietPre.drive {v : View} (h : QuietPre v) : DrivePre v := ⟨[], h.1, .quiet h.2, fun _ => h.2⟩
+
+theorem queuePing_rt {s s' : Session} {now : Nat} (hq : s.queuePing now = .ok s') : s'.rt = s.rt := by
+  rcases Session.queuePing_ok hq with rfl | ⟨o, _, rfl⟩ <;> rfl
 
 theorem FlushPre.queuePing {v : View} {s' : Session} {now : Nat} (h : FlushPre v) (hq : v.sess.queuePing now = .ok s') :
     FlushPre { v with sess := s' } := by
   obtain ⟨part, hl, ho, ha⟩ := h
-  refine ⟨part, hl.sess (closed_SP.queuePing _ _ _ hl.sp hq), OState_queuePing hq ho, ?_⟩
-  show s'.reader.packetAvailable = false
-  rw [queuePing_reader hq]; exact ha
+  have hm : s'.rt.maximumPacketSize = v.sess.rt.maximumPacketSize := by rw [queuePing_rt hq]
+  refine ⟨part, hl.sess ⟨closed_SP.queuePing _ _ _ hl.sp hq, hm, Log_queuePing hq hl.log⟩, ?_, ?_⟩
+  · rw [View.ok_sess v hm]; exact OState_queuePing hq ho
+  · show s'.reader.packetAvailable = false
+    rw [queuePing_reader hq]; exact ha
 
 theorem FlushPre.none {v : View} (h : FlushPre v) (hn : v.o.nextStep = none) : QuietPre v ∧ v.avail = false := by
   obtain ⟨part, hl, ho, ha⟩ := h
@@ -477,19 +611,20 @@ theorem FlushPre.flushing {v : View} {step : Outbound.Step} (h : FlushPre v) (hn
 
 theorem FlushPre.writing {v : View} {step : Outbound.Step} {bytes : Bytes} {written : Nat} (h : FlushPre v)
     (hn : v.o.nextStep = some step) (hst : step.state = .write written) (hb : v.o.StepBytes step bytes)
-    (hfr : Framed bytes) (hpos : 0 < bytes.length) : WritePre v step bytes written := by
+    (hfr : Framed bytes) (hpos : 0 < bytes.length) (hok : v.ok bytes) : WritePre v step bytes written := by
   obtain ⟨part, hl, ho, ha⟩ := h
   obtain ⟨hs, hc⟩ := ho.of_nextStep hl.sp.ids hn
-  rcases hc with ⟨h1, rfl⟩ | ⟨h1, _⟩ | ⟨n, bytes', h1, hb', hlt, _, rfl⟩
+  rcases hc with ⟨h1, rfl⟩ | ⟨h1, _⟩ | ⟨n, bytes', h1, hb', hlt, _, _, rfl⟩
   · rw [hst] at h1; cases h1
-    exact ⟨by simpa using hl, hs, hst, hb, hpos, hfr, ha⟩
+    exact ⟨by simpa using hl, hs, hst, hb, hpos, hfr, ha, hok⟩
   · rw [hst] at h1; cases h1
   · rw [hst] at h1; cases h1
     have := StepBytes_unique hb hb'
     subst this
-    exact ⟨hl, hs, hst, hb, hlt, hfr, ha⟩
+    exact ⟨hl, hs, hst, hb, hlt, hfr, ha, hok⟩
 
-/-- The transport accepted `count` more bytes of the current entry. -/
+/-- The transport accepted `count` more bytes of the current entry. When that completes the packet,
+the entry is recorded in the log of the transport. -/
 theorem WritePre.advance {v : View} {step : Outbound.Step} {bytes : Bytes} {written : Nat} (h : WritePre v step bytes written)
     (count : Nat) (hc : count ≤ (bytes.drop written).length) :
     (written + count < bytes.length →
@@ -497,107 +632,181 @@ theorem WritePre.advance {v : View} {step : Outbound.Step} {bytes : Bytes} {writ
                         wire := v.wire ++ (bytes.drop written).take count }) ∧
     (¬ written + count < bytes.length →
       FlushingPre { v with sess := v.sess.setWritten step.flushed (written + count) bytes.length,
-                           wire := v.wire ++ (bytes.drop written).take count } (step.withState .flush)) := by
-  obtain ⟨hl, hs, hst, hb, hlt, hfr, ha⟩ := h
+                           wire := v.wire ++ (bytes.drop written).take count,
+                           log := v.log ++ [v.o.done v.ord step.flushed] } (step.withState .flush)) := by
+  obtain ⟨hl, hs, hst, hb, hlt, hfr, ha, hok⟩ := h
   have hsp := closed_SP.setWritten v.sess step.flushed (written + count) bytes.length hl.sp
-  have hwire : WireIs (v.wire ++ (bytes.drop written).take count) (bytes.take (written + count)) := by
+  have hwire : WireIs v.lim (v.wire ++ (bytes.drop written).take count) (v.log.map (·.bytes)) (bytes.take (written + count)) := by
     rw [List.take_add]; exact hl.wire.append _
   have hslot := hs.setWritten (written + count) bytes.length
   have hbytes : (v.o.setWritten step.flushed (written + count) bytes.length).StepBytes
       (step.withState (SendState.afterWrite (written + count) bytes.length)) bytes :=
     StepBytes_withState (StepBytes_congr hb (setWritten_buf _ _ _ _)) _
+  have hlog := hl.log.setWritten hl.sp.1.1.2 hs hst (written + count) bytes.length
+  have hdone := done_of_slot v.ord hs hb
   simp only [List.length_drop] at hc
   have hle : written + count ≤ bytes.length := by omega
   generalize written + count = wc at *
   constructor
   · intro hlt2
     rw [afterWrite_lt hlt2] at hslot hbytes
+    have hlog' : (v.sess.setWritten step.flushed wc bytes.length).data.outbound.Log v.ord v.log := by
+      rw [Session.setWritten_outbound]; exact hlog.1 hlt2
     cases wc with
     | zero =>
-      refine ⟨[], ⟨hl.net, hl.live, hsp, by simpa using hwire⟩, .quiet ?_, ha⟩
+      refine ⟨[], ⟨hl.net, hl.live, hsp, (by simpa using hwire : WireIs v.lim _ _ []), hlog'⟩, .quiet ?_, ha⟩
       show (v.sess.setWritten step.flushed 0 bytes.length).data.outbound.Quiet
       rw [Session.setWritten_outbound]
       exact hslot.quiet_of_fresh (by simp)
     | succ n =>
-      refine ⟨_, ⟨hl.net, hl.live, hsp, hwire⟩, ?_, ha⟩
-      show (v.sess.setWritten step.flushed (n + 1) bytes.length).data.outbound.OState _
+      refine ⟨_, ⟨hl.net, hl.live, hsp, hwire, hlog'⟩, ?_, ha⟩
+      show (v.sess.setWritten step.flushed (n + 1) bytes.length).data.outbound.OState v.ok _
       rw [Session.setWritten_outbound]
-      exact .writing _ n bytes hslot (by simp) hbytes hlt2 hfr
+      exact .writing _ n bytes hslot (by simp) hbytes hlt2 hfr hok
   · intro hge
     have heq : wc = bytes.length := by omega
     subst heq
     rw [afterWrite_ge (Nat.le_refl _)] at hslot
     rw [List.take_length] at hwire
-    refine ⟨⟨hl.net, hl.live, hsp, hwire.close hfr⟩, ?_, by simp, ha⟩
+    have hlog' : (v.sess.setWritten step.flushed bytes.length bytes.length).data.outbound.Log v.ord
+        (v.log ++ [v.o.done v.ord step.flushed]) := by
+      rw [Session.setWritten_outbound]; exact hlog.2 (Nat.le_refl _)
+    have hwire' : WireIs v.lim (v.wire ++ (bytes.drop written).take count)
+        ((v.log ++ [v.o.done v.ord step.flushed]).map (·.bytes)) [] := by
+      have := hwire.closeLog hfr hok
+      rw [List.map_append, List.map_cons, List.map_nil]
+      show WireIs v.lim _ (v.log.map (·.bytes) ++ [(v.o.done v.ord step.flushed).bytes]) []
+      rw [hdone]; exact this
+    refine ⟨⟨hl.net, hl.live, hsp, hwire', hlog'⟩, ?_, by simp, ha⟩
     show (v.sess.setWritten step.flushed bytes.length bytes.length).data.outbound.Slot _
     rw [Session.setWritten_outbound]
     exact hslot
 
+theorem handlePacket_mps (d : SessionData) (r : Runtime) (p : Recv) :
+    (handlePacket d r p).2.1.maximumPacketSize = r.maximumPacketSize := by
+  cases p <;> simp only [handlePacket] <;> (repeat' split) <;> rfl
+
+theorem handle_mps (s : Session) (p : Recv) : (s.handle p).1.rt.maximumPacketSize = s.rt.maximumPacketSize := by
+  rw [Session.handle_fst_rt]; exact handlePacket_mps _ _ _
+
+theorem takePkt_mps (s : Session) : s.takePkt.1.rt.maximumPacketSize = s.rt.maximumPacketSize := by
+  rw [(Session.takePkt_data s).2]
+
+theorem window_mps {s s1 : Session} {n : Nat} (h : s.window = some (s1, n)) :
+    s1.rt.maximumPacketSize = s.rt.maximumPacketSize := by rw [(window_fields h).2]
+
+theorem alloc_rt (s : Session) : s.alloc.1.rt = s.rt := by rw [Session.alloc_fst]
+
+theorem retain_mps {s s3 : Session} {id off len : Nat} {isPub : Bool} (hr : s.retain id off len isPub = some s3) :
+    s3.rt.maximumPacketSize = s.rt.maximumPacketSize := by
+  unfold Session.retain at hr
+  split at hr
+  · simp at hr
+  · simp only [Option.some.injEq] at hr; subst hr
+    split <;> rfl
+
+theorem completeFlush_mps (s : Session) (pkt : Flushed) (now : Nat) :
+    (s.completeFlush pkt now).rt.maximumPacketSize = s.rt.maximumPacketSize := by
+  unfold Session.completeFlush
+  cases pkt with
+  | control a => simp only [Runtime.noteOutboundActivity]; split <;> rfl
+  | release id => rfl
+  | retained id => rfl
+
 /-- The flush of the current entry completed. -/
 theorem FlushingPre.done {v : View} {step : Outbound.Step} (h : FlushingPre v step) (now : Nat) :
     FlushPre { v with sess := v.sess.completeFlush step.flushed now } := by
-  obtain ⟨hl, hs, _, ha⟩ := h
-  refine ⟨[], hl.sess (closed_SP.completeFlush _ _ _ hl.sp), .quiet ?_, ha⟩
-  show (v.sess.completeFlush step.flushed now).data.outbound.Quiet
-  rw [Session.completeFlush_outbound]
-  exact hs.completeFlush
+  obtain ⟨hl, hs, hst, ha⟩ := h
+  refine ⟨[], hl.sess ⟨closed_SP.completeFlush _ _ _ hl.sp, completeFlush_mps _ _ _, ?_⟩, .quiet ?_, ha⟩
+  · rw [Session.completeFlush_outbound]; exact hl.log.completeFlush hs hst
+  · show (v.sess.completeFlush step.flushed now).data.outbound.Quiet
+    rw [Session.completeFlush_outbound]
+    exact hs.completeFlush
 
-theorem Mode.dead {v : View} (h : Mode v 0) : v.live = false := by
-  rcases h with ⟨_, hc⟩ | ⟨h0, _⟩
-  · simp [View.live, hc]
+theorem Hand.dead {v : View} (h : Hand v) : v.live = false := by simp [View.live, h.conn]
+
+theorem LocalPre.dead {v : View} {bytes : Bytes} (h : LocalPre v 0 bytes) : v.live = false := by
+  rcases h.2.2.2 with ⟨_, hc, _⟩ | ⟨h0, _⟩
+  · exact hc.dead
   · exact (h0 rfl).elim
 
-theorem Mode.ne {v : View} {which k : Nat} (h : Mode v which) (hw : which ≠ 0) (hk : k ≠ 0) : Mode v k := by
-  rcases h with ⟨h0, _⟩ | ⟨_, h1⟩
-  · exact (hw h0).elim
-  · exact Or.inr ⟨hk, h1⟩
+theorem LocalFlushPre.dead {v : View} (h : LocalFlushPre v 0) : v.live = false := by
+  rcases h.2.2.2 with ⟨_, hc, _⟩ | ⟨h0, _⟩
+  · exact hc.dead
+  · exact (h0 rfl).elim
 
-theorem LocalPre.pfx {v : View} {which : Nat} {bytes : Bytes} (h : LocalPre v which bytes) : Pfx v.wire := by
-  obtain ⟨_, _, _, _, pre, hw, hfr⟩ := h
-  exact hw.pfx_framed hfr
+theorem LocalPre.pfx {v : View} {which : Nat} {bytes : Bytes} (h : LocalPre v which bytes) : DeadOK v := by
+  rcases h.2.2.2 with ⟨_, hc, hfr, _⟩ | ⟨_, _, pre, hl, hfr, _⟩
+  · exact ⟨Pfx.of_framed hfr, by rw [hc.log]; simp [sers]⟩
+  · exact ⟨hl.wire.pfx_framed hfr, hl.log.sorted⟩
 
-theorem LocalFlushPre.pfx {v : View} {which : Nat} (h : LocalFlushPre v which) : Pfx v.wire := h.2.2.2.2.pfx_nil
+theorem LocalFlushPre.pfx {v : View} {which : Nat} (h : LocalFlushPre v which) : DeadOK v := by
+  rcases h.2.2.2 with ⟨_, hc, hfr, _⟩ | ⟨_, _, hl⟩
+  · exact ⟨Pfx.of_framed (rest := []) (by simpa using hfr), by rw [hc.log]; simp [sers]⟩
+  · exact ⟨hl.wire.pfx_nil, hl.log.sorted⟩
 
 theorem LocalPre.toFlush {v : View} {which : Nat} (h : LocalPre v which []) : LocalFlushPre v which := by
-  obtain ⟨h1, h2, h3, h4, pre, hw, hfr⟩ := h
-  rw [List.append_nil] at hfr
-  exact ⟨h1, h2, h3, h4, hw.close hfr⟩
+  obtain ⟨h1, h2, h3, h4⟩ := h
+  refine ⟨h1, h2, h3, ?_⟩
+  rcases h4 with ⟨h0, hc, hfr, hcc⟩ | ⟨h0, ha, pre, hl, hfr, hfit⟩
+  · rw [List.append_nil] at hfr hcc
+    exact Or.inl ⟨h0, hc, hfr, hcc⟩
+  · rw [List.append_nil] at hfr hfit
+    exact Or.inr ⟨h0, ha, ⟨hl.net, hl.live, hl.sp, hl.wire.close hfr hfit, hl.log⟩⟩
 
 theorem LocalPre.advance {v : View} {which : Nat} {bytes : Bytes} (h : LocalPre v which bytes) (n : Nat) :
     LocalPre { v with wire := v.wire ++ bytes.take n } which (bytes.drop n) := by
-  obtain ⟨h1, h2, h3, h4, pre, hw, hfr⟩ := h
-  refine ⟨h1, h2, h3, h4, pre ++ bytes.take n, hw.append _, ?_⟩
-  rw [List.append_assoc, List.take_append_drop]; exact hfr
+  obtain ⟨h1, h2, h3, h4⟩ := h
+  refine ⟨h1, h2, h3, ?_⟩
+  rcases h4 with ⟨h0, hc, hfr, hcc⟩ | ⟨h0, ha, pre, hl, hfr, hfit⟩
+  · left
+    refine ⟨h0, ⟨hc.conn, hc.log, hc.fresh⟩, ?_, ?_⟩
+    · show Framed ((v.wire ++ bytes.take n) ++ bytes.drop n)
+      rw [List.append_assoc, List.take_append_drop]; exact hfr
+    · show IsConnect ((v.wire ++ bytes.take n) ++ bytes.drop n)
+      rw [List.append_assoc, List.take_append_drop]; exact hcc
+  · right
+    refine ⟨h0, ha, pre ++ bytes.take n, ⟨hl.net, hl.live, hl.sp, hl.wire.append _, hl.log⟩, ?_, ?_⟩
+    · rw [List.append_assoc, List.take_append_drop]; exact hfr
+    · rw [List.append_assoc, List.take_append_drop]; exact hfit
 
 theorem LocalPre.which {v : View} {which k : Nat} {bytes : Bytes} (h : LocalPre v which bytes) (hw : which ≠ 0) (hk : k ≠ 0) :
     LocalPre v k bytes := by
-  obtain ⟨h1, h2, h3, h4, h5⟩ := h
-  exact ⟨h1, h2, h3, h4.ne hw hk, h5⟩
+  obtain ⟨h1, h2, h3, h4⟩ := h
+  refine ⟨h1, h2, h3, ?_⟩
+  rcases h4 with ⟨h0, _⟩ | ⟨_, h5⟩
+  · exact (hw h0).elim
+  · exact Or.inr ⟨hk, h5⟩
 
 theorem LocalFlushPre.which {v : View} {which k : Nat} (h : LocalFlushPre v which) (hw : which ≠ 0) (hk : k ≠ 0) :
     LocalFlushPre v k := by
-  obtain ⟨h1, h2, h3, h4, h5⟩ := h
-  exact ⟨h1, h2, h3, h4.ne hw hk, h5⟩
+  obtain ⟨h1, h2, h3, h4⟩ := h
+  refine ⟨h1, h2, h3, ?_⟩
+  rcases h4 with ⟨h0, _⟩ | ⟨_, h5⟩
+  · exact (hw h0).elim
+  · exact Or.inr ⟨hk, h5⟩
 
-theorem LocalFlushPre.sess {v : View} {which : Nat} (h : LocalFlushPre v which) {s : Session} (hs : SP s)
-    (hq : s.data.outbound.Quiet) (hr : s.reader.packetAvailable = v.sess.reader.packetAvailable ∨ which = 0) :
-    LocalFlushPre { v with sess := s } which := by
-  obtain ⟨h1, _, _, h4, h5⟩ := h
-  refine ⟨h1, hs, hq, ?_, h5⟩
-  rcases h4 with ⟨h0, hc⟩ | ⟨h0, hl, ha⟩
-  · exact Or.inl ⟨h0, hc⟩
-  · rcases hr with hr | hr
-    · exact Or.inr ⟨h0, hl, by show s.reader.packetAvailable = false; rw [hr]; exact ha⟩
-    · exact (h0 hr).elim
+/-- During the handshake the session changes (deadlines cleared, reader fed) but the queues stay fresh. -/
+theorem LocalFlushPre.sess {v : View} (h : LocalFlushPre v 0) {s : Session} (hs : SP s)
+    (hq : s.data.outbound.AllFresh) : LocalFlushPre { v with sess := s } 0 := by
+  obtain ⟨h1, _, _, h4⟩ := h
+  refine ⟨h1, hs, hq.quiet, ?_⟩
+  rcases h4 with ⟨h0, hc, hfr, hcc⟩ | ⟨h0, _⟩
+  · exact Or.inl ⟨h0, ⟨hc.conn, hc.log, hq⟩, hfr, hcc⟩
+  · exact (h0 rfl).elim
+
+theorem LocalFlushPre.fresh {v : View} (h : LocalFlushPre v 0) : v.o.AllFresh := by
+  rcases h.2.2.2 with ⟨_, hc, _⟩ | ⟨h0, _⟩
+  · exact hc.fresh
+  · exact (h0 rfl).elim
 
 /-- A local write on a live connection completed: back to the idle state. -/
 theorem LocalFlushPre.done {v : View} {which : Nat} (h : LocalFlushPre v which) (hw : which ≠ 0) (now : Nat) :
     FlushPre { v with sess := v.sess.noteActivity now } := by
-  obtain ⟨h1, h2, h3, h4, h5⟩ := h
-  rcases h4 with ⟨h0, _⟩ | ⟨_, hl, ha⟩
+  obtain ⟨h1, h2, h3, h4⟩ := h
+  rcases h4 with ⟨h0, _⟩ | ⟨_, ha, hl⟩
   · exact (hw h0).elim
-  · exact ⟨[], ⟨h1, hl, closed_SP.noteActivity _ _ h2, h5⟩, .quiet h3, ha⟩
-
+  · exact ⟨[], hl.sess (SessOK.same hl (closed_SP.noteActivity _ _ h2) rfl rfl), .quiet h3, ha⟩
 
 /-! ### Fuel: a potential that every call of a machine function decreases
 
@@ -1041,13 +1250,11 @@ theorem wire_doStepWrite (fuel : Nat) (ih : MachineW fuel) :
       apply i5
       · have hb := φSR_le (w'.setWritten step.flushed (wr + count) bytes.length) ctx
         simp only [φIO] at hfuel; omega
-      · show FlushPre { w'.view with sess := w'.view.sess.setWritten step.flushed (wr + count) bytes.length }
-        rw [hv]; exact hadv.1 hlt
+      · rw [view_setWritten, if_neg (by omega), hv]; exact hadv.1 hlt
     · rename_i hge
       apply i4
       · simp only [φIO] at hfuel ⊢; omega
-      · show PcOK { w'.view with sess := w'.view.sess.setWritten step.flushed (wr + count) bytes.length } (.stepFlush ctx step.flushed now)
-        rw [hv]; exact ⟨step.withState .flush, hadv.2 hge, by simp⟩
+      · rw [view_setWritten, if_pos (by omega), hv]; exact ⟨step.withState .flush, hadv.2 hge, by simp⟩
 
 theorem wire_performStep (fuel : Nat) (ih : MachineW fuel) :
     ∀ w ctx step now, φPerf w ≤ fuel + 1 → FlushPre w.view → w.view.o.nextStep = some step →
@@ -1069,10 +1276,10 @@ theorem wire_performStep (fuel : Nat) (ih : MachineW fuel) :
     · exact Post.live_finishErr _ _ h
     · exact i4 _ _ _ _ hio ⟨step, h.flushing hn hp2, hp1⟩
   · rename_i pkt bytes written len hprep
-    obtain ⟨q1, q2, q3, q4, q5, q6⟩ := prepareStep_write w step hslot.1 hslot.2 hprep
+    obtain ⟨q1, q2, q3, q4, q5, q6, q7⟩ := prepareStep_write w step hslot.1 hslot.2 hprep
     split
     · exact Post.live_finishErr _ _ h
-    · exact i3 _ _ _ _ _ _ _ hio ⟨step, h.writing hn q2 q3 q5 q6, q1, q4⟩
+    · exact i3 _ _ _ _ _ _ _ hio ⟨step, h.writing hn q2 q3 q5 q6 (fits_of_not_tooLarge q7), q1, q4⟩
 
 theorem wire_flushLoop (fuel : Nat) (ih : MachineW fuel) :
     ∀ w k, φFL w k ≤ fuel + 1 → FlushPre w.view → Post (flushLoop (fuel + 1) w k) := by
@@ -1137,44 +1344,65 @@ theorem wire_doLocalWrite (fuel : Nat) (ih : MachineW fuel) :
       simp only [] at hv
       split
       · rename_i h0; subst h0
-        exact Post.dead_finishErr _ _ (by rw [hv]; exact h.2.2.2.1.dead) (by rw [hv]; exact h.pfx)
+        exact Post.dead_finishErr _ _ (by rw [hv]; exact h.dead) (by rw [hv]; exact h.pfx)
       · split <;> exact Post.hd_finishErr _ _ (by rw [hv]; exact h.pfx)
     · rename_i w' k heq
       have hv := ioWrite_view h.1 heq
       simp only [] at hv
       split
       · rename_i h0; subst h0
-        exact Post.dead_finishErr _ _ (by rw [hv]; exact h.2.2.2.1.dead) (by rw [hv]; exact h.pfx)
+        exact Post.dead_finishErr _ _ (by rw [hv]; exact h.dead) (by rw [hv]; exact h.pfx)
       · split <;> exact Post.hd_finishErr _ _ (by rw [hv]; exact h.pfx)
+
+theorem allFresh_activate (s : Session) (sp : Bool) (block : Bytes) (now : Nat) (h : s.data.outbound.AllFresh) :
+    (s.activate sp block now).1.data.outbound.AllFresh := by
+  unfold Session.activate
+  simp only []
+  have h0 : (if (!sp) = true then { s with data := s.data.reset } else s).data.outbound.AllFresh := by
+    split
+    · constructor <;> simp [SessionData.reset, Outbound.clear]
+    · exact h
+  generalize (if (!sp) = true then { s with data := s.data.reset } else s) = s0 at h0 ⊢
+  split
+  · exact handleDisconnect_allFresh _
+  · exact h0
 
 theorem activate_post (w : World) (sp : Bool) (block : Bytes) (h : LocalFlushPre w.view 0)
     (hav : w.sess.reader.packetAvailable = false) : Post (World.activate w sp block) := by
-  obtain ⟨h1, h2, h3, h4, h5⟩ := h
-  unfold World.activate
-  split
-  · rename_i s e heq
-    exact Post.dead_finishErr _ _ (hd_live w.view s) h5.pfx_nil
-  · rename_i s heq
-    apply Post.live_finish
-    have hs : s = (w.sess.activate sp block w.now).1 := by rw [heq]
-    have hok : (w.sess.activate sp block w.now).2 = .ok () := by rw [heq]
-    refine ⟨[], ⟨h1, rfl, ?_, h5⟩, .quiet ?_, ?_⟩
-    · show SP s
-      rw [hs]; exact closed_SP.activate _ _ _ _ h2
-    · show s.data.outbound.Quiet
-      rw [hs]; exact Quiet_activate _ _ _ _ h3
-    · show s.reader.packetAvailable = false
-      rw [hs, activate_reader _ _ _ _ hok]; exact hav
+  have hpfx := h.pfx
+  obtain ⟨h1, h2, h3, h4⟩ := h
+  rcases h4 with ⟨_, hc, hfr, hcc⟩ | ⟨h0, _⟩
+  · have hlog0 : w.view.log = [] := hc.log
+    unfold World.activate
+    split
+    · rename_i s e heq
+      exact Post.dead_finishErr _ _ (hd_live w.view s) hpfx
+    · rename_i s heq
+      apply Post.live_finish
+      have hs : s = (w.sess.activate sp block w.now).1 := by rw [heq]
+      have hok : (w.sess.activate sp block w.now).2 = .ok () := by rw [heq]
+      refine ⟨[], ⟨h1, rfl, ?_, ?_, ?_⟩, .quiet ?_, ?_⟩
+      · show SP s
+        rw [hs]; exact closed_SP.activate _ _ _ _ h2
+      · show WireIs _ w.view.wire (w.view.log.map (·.bytes)) []
+        rw [hlog0]; exact WireIs.first _ hfr hcc
+      · show s.data.outbound.Log w.view.ord w.view.log
+        rw [hlog0, hs]; exact Log_of_allFresh _ _ (allFresh_activate _ _ _ _ hc.fresh).retained
+      · show s.data.outbound.Quiet
+        rw [hs]; exact Quiet_activate _ _ _ _ h3
+      · show s.reader.packetAvailable = false
+        rw [hs, activate_reader _ _ _ _ hok]; exact hav
+  · exact (h0 rfl).elim
 
 theorem connectGotPacket_post (w : World) (h : LocalFlushPre w.view 0) : Post (World.connectGotPacket w) := by
   have h1 : LocalFlushPre ({ w with sess := w.sess.takePkt.1 } : World).view 0 :=
-    h.sess (closed_SP.takePkt _ h.2.1) (Quiet_takePkt _ h.2.2.1) (Or.inr rfl)
+    h.sess (closed_SP.takePkt _ h.2.1) (handshake_keeps_allFresh _ h.fresh).2.2.2.2
   unfold World.connectGotPacket
   simp only []
   split
   · exact Post.hd_finishErr _ _ h1.pfx
   · split
-    · exact Post.dead_finishErr _ _ h1.2.2.2.1.dead h1.pfx
+    · exact Post.dead_finishErr _ _ h1.dead h1.pfx
     · exact activate_post _ _ _ h1 (takePkt_not_avail _)
   · exact Post.hd_finishErr _ _ h1.pfx
   · exact Post.hd_finishErr _ _ h1.pfx
@@ -1199,7 +1427,7 @@ theorem wire_doLocalFlush (fuel : Nat) (ih : MachineW fuel) :
     have hv := ioFlush_view heq
     split
     · rename_i h0; subst h0
-      exact Post.dead_finishErr _ _ (by rw [hv]; exact h.2.2.2.1.dead) (by rw [hv]; exact h.pfx)
+      exact Post.dead_finishErr _ _ (by rw [hv]; exact h.dead) (by rw [hv]; exact h.pfx)
     · split <;> exact Post.hd_finishErr _ _ (by rw [hv]; exact h.pfx)
   · rename_i w' heq
     have hv := ioFlush_view heq
@@ -1211,7 +1439,7 @@ theorem wire_doLocalFlush (fuel : Nat) (ih : MachineW fuel) :
       · have e : mS ({ w' with sess := w'.sess.clearPing } : World) = mS w' := rfl
         simp only [φIO] at hfuel ⊢; omega
       · show LocalFlushPre { w'.view with sess := w'.view.sess.clearPing } 0
-        rw [hv]; exact h.sess (closed_SP.clearPing _ h.2.1) h.2.2.1 (Or.inr rfl)
+        rw [hv]; exact h.sess (closed_SP.clearPing _ h.2.1) (handshake_keeps_allFresh _ h.fresh).2.1
     · rename_i h0
       split
       · apply Post.live_finish
@@ -1230,7 +1458,7 @@ theorem wire_doConnRead (fuel : Nat) (ih : MachineW fuel) :
     · exact Post.hd_finishErr _ _ h.pfx
     · rename_i s1 window hw
       have h1 : LocalFlushPre ({ w with sess := s1 } : World).view 0 :=
-        h.sess (closed_SP.window _ _ _ h.2.1 hw) (by rw [(window_fields hw).1]; exact h.2.2.1) (Or.inr rfl)
+        h.sess (closed_SP.window _ _ _ h.2.1 hw) ((handshake_keeps_allFresh _ h.fresh).2.2.2.1 _ _ hw)
       split
       · exact connectGotPacket_post _ h1
       · split
@@ -1252,13 +1480,13 @@ theorem wire_doConnRead (fuel : Nat) (ih : MachineW fuel) :
           · have e : mS ({ w' with sess := w'.sess.commit bytes } : World) = mS w' := rfl
             simp only [φIO] at hfuel ⊢; omega
           · show LocalFlushPre { w'.view with sess := w'.view.sess.commit bytes } 0
-            rw [hv]; exact h1.sess (closed_SP.commit _ _ h1.2.1) h1.2.2.1 (Or.inr rfl)
+            rw [hv]; exact h1.sess (closed_SP.commit _ _ h1.2.1) ((handshake_keeps_allFresh _ h1.fresh).2.2.1 bytes)
 
 /-- A complete inbound packet is handled while nothing is in progress; afterwards nothing is in
 progress, the reader is empty, and the connection is either as before or dead. -/
 theorem processReceivedPacket_spec (w : World) (h : DrivePre w.view) (hav : w.sess.reader.packetAvailable = true) :
     FlushPre (w.processReceivedPacket).1.view ∨
-    ((w.processReceivedPacket).1.view.live = false ∧ Pfx (w.processReceivedPacket).1.view.wire ∧
+    ((w.processReceivedPacket).1.view.live = false ∧ DeadOK (w.processReceivedPacket).1.view ∧
       ∃ e, (w.processReceivedPacket).2 = .error e) := by
   obtain ⟨part, hl, ho, hq⟩ := h
   have hquiet := hq hav
@@ -1269,20 +1497,22 @@ theorem processReceivedPacket_spec (w : World) (h : DrivePre w.view) (hav : w.se
   unfold World.processReceivedPacket
   simp only [hav, Bool.not_true, Bool.false_eq_true, if_false]
   split
-  · exact Or.inr ⟨hd_live w.view _, hl.wire.pfx_nil, _, rfl⟩
+  · exact Or.inr ⟨hd_live w.view _, ⟨hl.wire.pfx_nil, hl.log.sorted⟩, _, rfl⟩
   · rename_i len pkt hres
     have hsp2 := closed_SP.handle _ pkt hsp1
     have hq2 := Quiet_handle _ pkt hq1
     have hav2 : (w.sess.takePkt.1.handle pkt).1.reader.packetAvailable = false := by
       rw [handle_reader]; exact takePkt_not_avail _
     have hgood : FlushPre ({ ({ w with sess := w.sess.takePkt.1 } : World) with sess := (w.sess.takePkt.1.handle pkt).1 } : World).view :=
-      ⟨[], ⟨hl.net, hl.live, hsp2, hl.wire⟩, .quiet hq2, hav2⟩
+      ⟨[], (hl.sess (SessOK.same hl hsp1 (takePkt_mps _) (by rw [(Session.takePkt_data _).1]))).sess
+        ⟨hsp2, handle_mps _ _, Log_handle _ _ _ _ hsp1.arena (by rw [(Session.takePkt_data _).1]; exact hl.log)⟩,
+        .quiet hq2, hav2⟩
     split
     · exact Or.inl hgood
     · exact Or.inl hgood
-    · exact Or.inr ⟨hd_live w.view _, hl.wire.pfx_nil, _, rfl⟩
-    · exact Or.inr ⟨hd_live w.view _, hl.wire.pfx_nil, _, rfl⟩
-    · exact Or.inr ⟨hd_live w.view _, hl.wire.pfx_nil, _, rfl⟩
+    · exact Or.inr ⟨hd_live w.view _, ⟨hl.wire.pfx_nil, hl.log.sorted⟩, _, rfl⟩
+    · exact Or.inr ⟨hd_live w.view _, ⟨hl.wire.pfx_nil, hl.log.sorted⟩, _, rfl⟩
+    · exact Or.inr ⟨hd_live w.view _, ⟨hl.wire.pfx_nil, hl.log.sorted⟩, _, rfl⟩
     · exact Or.inl hgood
 
 theorem process_post (fuel : Nat) (i10 : ∀ w o adv, φDL w o adv ≤ fuel → DrivePre w.view → Post (driveLoop fuel w o adv))
@@ -1414,7 +1644,7 @@ theorem wire_doWaitRead (fuel : Nat) (ih : MachineW fuel) :
     · exact Post.hd_finishErr _ _ h.pfx
     · rename_i s1 window hw
       have h1 : QuietPre ({ w with sess := s1 } : World).view :=
-        ⟨h.1.sess (closed_SP.window _ _ _ h.1.sp hw), by
+        ⟨h.1.sess (SessOK.same h.1 (closed_SP.window _ _ _ h.1.sp hw) (window_mps hw) (by rw [(window_fields hw).1]; rfl)), by
           show s1.data.outbound.Quiet
           rw [(window_fields hw).1]; exact h.2⟩
       obtain ⟨wm0, wm1⟩ := window_metrics hw hna'
@@ -1446,7 +1676,7 @@ theorem wire_doWaitRead (fuel : Nat) (ih : MachineW fuel) :
             have e6 : mS ({ w' with sess := w'.sess.commit bytes } : World) = mS w' := rfl
             simp only [φDWR, mD] at hfuel; omega
           · show QuietPre { w'.view with sess := w'.view.sess.commit bytes }
-            rw [hv]; exact ⟨h1.1.sess (closed_SP.commit _ _ h1.1.sp), h1.2⟩
+            rw [hv]; exact ⟨h1.1.sess (SessOK.same h1.1 (closed_SP.commit _ _ h1.1.sp) rfl rfl), h1.2⟩
         · rename_i w' heq
           have hv := ioRead_view h1.1.net heq
           obtain ⟨p1, p2, p3, p4, _⟩ := ioRead_pot heq
@@ -1485,12 +1715,24 @@ theorem encode_packet_framed {ε : Type} (s : Session) (enc : Nat → (Nat → N
   show Framed (slice (s.data.outbound.encodeAt enc).1.buf off len)
   rw [hsl]; exact hfr
 
-theorem QuietPre.sessQ {v : View} (h : QuietPre v) (ha : v.avail = false) {s : Session} (hs : SP s)
+theorem encode_packet_typ {ε : Type} (s : Session) (enc : Nat → (Nat → Nat → Bytes) → Except ε (Nat × Bytes))
+    (ha : s.data.outbound.ArenaInv) (he : EncOk enc) {typ : Nat} (ht : EncTyp enc typ) {off len : Nat}
+    (hres : (s.encode enc).2 = .ok (off, len)) :
+    ∃ x rest, (s.encode enc).1.data.outbound.retainedPacket off len = x :: rest ∧ x.toNat / 16 = typ := by
+  rw [Session.encode_snd] at hres
+  obtain ⟨off0, pkt, hpk, hsl, _⟩ := encodeAt_packet s.data.outbound enc ha he off len hres
+  obtain ⟨x, rest, hx, hxt⟩ := ht _ _ _ _ hpk
+  refine ⟨x, rest, ?_, hxt⟩
+  rw [Session.encode_fst]
+  show slice (s.data.outbound.encodeAt enc).1.buf off len = _
+  rw [hsl]; exact hx
+
+theorem QuietPre.sessQ {v : View} (h : QuietPre v) (ha : v.avail = false) {s : Session} (hs : SessOK v s)
     (hq : s.data.outbound.Quiet) (hr : s.reader = v.sess.reader) :
     QuietPre { v with sess := s } ∧ ({ v with sess := s } : View).avail = false :=
   ⟨⟨h.1.sess hs, hq⟩, by show s.reader.packetAvailable = false; rw [hr]; exact ha⟩
 
-theorem QuietPre.sessF {v : View} (h : QuietPre v) (ha : v.avail = false) {s : Session} (hs : SP s)
+theorem QuietPre.sessF {v : View} (h : QuietPre v) (ha : v.avail = false) {s : Session} (hs : SessOK v s)
     (hq : s.data.outbound.Quiet) (hr : s.reader = v.sess.reader) : FlushPre { v with sess := s } :=
   (h.sessQ ha hs hq hr).1.flushPre (h.sessQ ha hs hq hr).2
 
@@ -1501,6 +1743,20 @@ theorem wire_afterFlush (fuel : Nat) (ih : MachineW fuel) :
   have hf := h.flushPre ha
   have hsp : SP w.sess := h.1.sp
   have hquiet : w.sess.data.outbound.Quiet := h.2
+  have hm2 : ∀ {ε : Type} (enc : Nat → (Nat → Nat → Bytes) → Except ε (Nat × Bytes)),
+      (w.sess.alloc.1.encode enc).1.rt.maximumPacketSize = w.sess.rt.maximumPacketSize := fun enc => by rw [alloc_encode_rt]
+  have hm2e : ∀ {ε : Type} (enc : Nat → (Nat → Nat → Bytes) → Except ε (Nat × Bytes)),
+      (w.sess.encode enc).1.rt.maximumPacketSize = w.sess.rt.maximumPacketSize := fun enc => by rw [encode_rt]
+  have hlog : w.sess.data.outbound.Log w.view.ord w.view.log := h.1.log
+  have hlogA : w.sess.alloc.1.data.outbound.Log w.view.ord w.view.log := by rw [alloc_outbound]; exact hlog
+  have harA : w.sess.alloc.1.data.outbound.ArenaInv := by rw [alloc_outbound]; exact hsp.arena
+  -- the session after allocating an identifier and encoding the packet behind the retained ones
+  have okAE : ∀ {ε : Type} (enc : Nat → (Nat → Nat → Bytes) → Except ε (Nat × Bytes)), EncOk enc →
+      SessOK w.view (w.sess.alloc.1.encode enc).1 := fun enc he =>
+    ⟨closed_SP.encodeAfterAlloc w.sess enc he hsp, hm2 enc, Log_encode _ enc harA he hlogA⟩
+  have okE : ∀ {ε : Type} (enc : Nat → (Nat → Nat → Bytes) → Except ε (Nat × Bytes)), EncOk enc →
+      SessOK w.view (w.sess.encode enc).1 := fun enc he =>
+    ⟨closed_SP.encodeScratch w.sess enc he hsp, hm2e enc, Log_encode _ enc hsp.arena he hlog⟩
   unfold afterFlush
   cases k with
   | post name op => exact Post.live_finishOp _ _ hf
@@ -1511,9 +1767,11 @@ theorem wire_afterFlush (fuel : Nat) (ih : MachineW fuel) :
     · rename_i off pkt henc
       split
       · exact Post.live_finishErr _ _ hf
-      · refine i7' _ _ _ (by show 1000 * mS w + 2 ≤ fuel; simp only [φAF, kpN] at hfuel; omega) ?_
+      · rename_i hbig
+        refine i7' _ _ _ (by show 1000 * mS w + 2 ≤ fuel; simp only [φAF, kpN] at hfuel; omega) ?_
         have hfr := (EncOk_encodeWithOffset _ _ _ _ (fun _ _ => []) _ _ (by simp) henc).2.2
-        exact ⟨h.1.net, hsp, h.2, Or.inr ⟨by decide, h.1.live, ha⟩, [], h.1.wire, by simpa using hfr⟩
+        have hfit : Fits w.sess.rt.maximumPacketSize pkt.length := fits_of_not_tooLarge (by simpa using hbig)
+        exact ⟨h.1.net, hsp, h.2, Or.inr ⟨by decide, ha, [], h.1, by simpa using hfr, by rw [List.nil_append]; exact hfit⟩⟩
   | subPre r =>
     simp only []
     split
@@ -1526,7 +1784,7 @@ theorem wire_afterFlush (fuel : Nat) (ih : MachineW fuel) :
       have hr2 : (w.sess.alloc.1.encode (fun cap _ =>
         encodeWithOffset cap (subscribeChunks w.sess.alloc.2 (.slice r.props) r.topics) MT_Subscribe FLAGS_Subscribe)).1.reader = w.sess.reader := by
         rw [encode_reader, alloc_reader]
-      have hf2 := h.sessF ha hsp2 hq2 hr2
+      have hf2 := h.sessF ha (okAE _ hE) hq2 hr2
       split
       · exact Post.live_finishErr _ _ hf2
       · split
@@ -1537,7 +1795,7 @@ theorem wire_afterFlush (fuel : Nat) (ih : MachineW fuel) :
             refine i1' _ _ (by show 1000 * mS w + 40 * 0 + 5 ≤ fuel; simp only [φAF, kpN] at hfuel; omega) ?_
             rename_i _ off len hres _ _
             have hsp3 := closed_SP.enqueue w.sess _ _ _ false s3 _ hE (EncTyp_encodeWithOffset _ _ _ (by decide)) (by decide) hsp (by simp) hres hs3
-            exact h.sessF ha hsp3 (Quiet_retain hq2 hs3) ((retain_reader hs3).trans hr2)
+            exact h.sessF ha ⟨hsp3, (retain_mps hs3).trans (hm2 _), Log_retain _ _ _ harA hE hlogA _ _ _ _ hres hs3⟩ (Quiet_retain hq2 hs3) ((retain_reader hs3).trans hr2)
   | unsubPre r =>
     simp only []
     split
@@ -1550,7 +1808,7 @@ theorem wire_afterFlush (fuel : Nat) (ih : MachineW fuel) :
       have hr2 : (w.sess.alloc.1.encode (fun cap _ =>
         encodeWithOffset cap (unsubscribeChunks w.sess.alloc.2 (.slice r.props) r.topics) MT_Unsubscribe FLAGS_Unsubscribe)).1.reader = w.sess.reader := by
         rw [encode_reader, alloc_reader]
-      have hf2 := h.sessF ha hsp2 hq2 hr2
+      have hf2 := h.sessF ha (okAE _ hE) hq2 hr2
       split
       · exact Post.live_finishErr _ _ hf2
       · split
@@ -1561,7 +1819,7 @@ theorem wire_afterFlush (fuel : Nat) (ih : MachineW fuel) :
             refine i1' _ _ (by show 1000 * mS w + 40 * 0 + 5 ≤ fuel; simp only [φAF, kpN] at hfuel; omega) ?_
             rename_i _ off len hres _ _
             have hsp3 := closed_SP.enqueue w.sess _ _ _ false s3 _ hE (EncTyp_encodeWithOffset _ _ _ (by decide)) (by decide) hsp (by simp) hres hs3
-            exact h.sessF ha hsp3 (Quiet_retain hq2 hs3) ((retain_reader hs3).trans hr2)
+            exact h.sessF ha ⟨hsp3, (retain_mps hs3).trans (hm2 _), Log_retain _ _ _ harA hE hlogA _ _ _ _ hres hs3⟩ (Quiet_retain hq2 hs3) ((retain_reader hs3).trans hr2)
   | publishPre r =>
     simp only []
     split
@@ -1571,7 +1829,7 @@ theorem wire_afterFlush (fuel : Nat) (ih : MachineW fuel) :
       · -- QoS > 0
         have hsp1 := closed_SP.alloc w.sess hsp
         have hq1 : w.sess.alloc.1.data.outbound.Quiet := by rw [alloc_outbound]; exact hquiet
-        have hf1 := h.sessF ha hsp1 hq1 (alloc_reader _)
+        have hf1 := h.sessF ha (SessOK.same h.1 hsp1 (by rw [alloc_rt]; rfl) (alloc_outbound _)) hq1 (alloc_reader _)
         split
         · exact Post.live_finishErr _ _ hf1
         · split
@@ -1584,7 +1842,7 @@ theorem wire_afterFlush (fuel : Nat) (ih : MachineW fuel) :
             have hr2 : (w.sess.alloc.1.encode (fun cap fill => encodePublishWithOffset cap
               { topic := r.topic, packetId := some w.sess.alloc.2, props := r.props, retain := r.retain, qos := qos, dup := false } r.payload fill)).1.reader = w.sess.reader := by
               rw [encode_reader, alloc_reader]
-            have hf2 := h.sessF ha hsp2 hq2 hr2
+            have hf2 := h.sessF ha (okAE _ hE) hq2 hr2
             split
             · exact Post.live_finishErr _ _ hf2
             · split
@@ -1603,7 +1861,7 @@ theorem wire_afterFlush (fuel : Nat) (ih : MachineW fuel) :
                     have hrt : w.sess.alloc.1.rt = w.sess.rt := rfl
                     rw [hrt] at hcp
                     exact hcp.1) hres hs3
-                  exact h.sessF ha hsp3 (Quiet_retain hq2 hs3) ((retain_reader hs3).trans hr2)
+                  exact h.sessF ha ⟨hsp3, (retain_mps hs3).trans (hm2 _), Log_retain _ _ _ harA hE hlogA _ _ _ _ hres hs3⟩ (Quiet_retain hq2 hs3) ((retain_reader hs3).trans hr2)
       · -- QoS 0
         split
         · exact Post.live_finishErr _ _ hf
@@ -1613,16 +1871,21 @@ theorem wire_afterFlush (fuel : Nat) (ih : MachineW fuel) :
             { topic := r.topic, packetId := none, props := r.props, retain := r.retain, qos := 0, dup := false } r.payload fill) hquiet
           have hr2 := encode_reader w.sess (fun cap fill => encodePublishWithOffset cap
             { topic := r.topic, packetId := none, props := r.props, retain := r.retain, qos := 0, dup := false } r.payload fill)
-          have hf2 := h.sessF ha hsp2 hq2 hr2
+          have hf2 := h.sessF ha (okE _ hE) hq2 hr2
           split
           · exact Post.live_finishErr _ _ hf2
           · split
             · exact Post.live_finishErr _ _ hf2
-            · rename_i off len hres _
+            · rename_i off len hres hbig
               refine i7' _ _ _ (by show 1000 * mS w + 2 ≤ fuel; simp only [φAF, kpN] at hfuel; omega) ?_
               have hfr := encode_packet_framed w.sess _ hsp.arena hE hres
-              have hav2 := (h.sessQ ha hsp2 hq2 hr2).2
-              exact ⟨h.1.net, hsp2, hq2, Or.inr ⟨by decide, h.1.live, hav2⟩, [], h.1.wire, by simpa using hfr⟩
+              have hq' := h.sessQ ha (okE _ hE) hq2 hr2
+              refine ⟨h.1.net, hsp2, hq2, Or.inr ⟨by decide, hq'.2, [], hq'.1.1, by simpa using hfr, ?_⟩⟩
+              rw [List.nil_append]
+              have hb' : (w.sess.encode (fun cap fill => encodePublishWithOffset cap
+                  { topic := r.topic, packetId := none, props := r.props, retain := r.retain, qos := 0, dup := false }
+                  r.payload fill)).1.rt.packetTooLarge len = false := by simpa using hbig
+              exact Fits.mono (fits_of_not_tooLarge hb') (slice_length_le _ off len)
 
 
 theorem machineW : ∀ fuel, MachineW fuel := by
